@@ -78,12 +78,16 @@ def declare(w):
     w.externals["inspect.getfullargspec"] = getfullargspec
     s.set_bases("ArgSpec", ["object"])
 
+    more_params = z3.Function("more_params", z3.IntSort(), z3.SeqSort(z3.StringSort()))   # the parameter names after the first one (any)
+
     def argspec_args(ex, st, recv):
         fa = st.heap.get(SV(REF("Function"), recv.v), "$first_arg")
-        rest = z3.Const(core.fresh_name("more_params"), z3.SeqSort(z3.StringSort()))
-        return SV(SEQ(STR), z3.If(fa.v[0], z3.Empty(z3.SeqSort(z3.StringSort())), z3.Concat(z3.Unit(fa.v[1].v), rest)))
+        return SV(SEQ(STR), z3.If(fa.v[0], z3.Empty(z3.SeqSort(z3.StringSort())), z3.Concat(z3.Unit(fa.v[1].v), more_params(recv.v))))
 
     w.attr_hooks[("ArgSpec", "args")] = argspec_args
+    # inspect.signature(f).parameters: the same names, as a mapping (only membership and order are modelled)
+    w.externals["inspect.signature"] = getfullargspec
+    w.attr_hooks[("ArgSpec", "parameters")] = argspec_args
     w.attr_hooks[("Function", "__closure__")] = lambda ex, st, recv: SV(OPT(INT), (z3.Not(st.heap.get(recv, "$has_closure").v), core.mk_int(1)))
     w.attr_hooks[("Function", "__code__")] = lambda ex, st, recv: SV(REF("Code"), recv.v)
     s.set_bases("Code", ["object"])
